@@ -701,4 +701,115 @@ theorem readLoopS_canonical (t : List FieldSpec) (ps : List PathArg) : ∀ acc,
 theorem readPathsS_canonical (t : List FieldSpec) (ps : List PathArg) :
     readPathsS canonicalRead t ps = readPaths t ps := readLoopS_canonical t ps (zero t)
 
+/-! ### DecodeConfig's post-processing -/
+
+theorem alookup_setField (c : Config) (d : String) (v : FieldVal) (f : String) :
+    alookup (setField c d v) f = if f = d then (alookup c d).map (fun _ => v) else alookup c f := by
+  induction c with
+  | nil => simp [setField]
+  | cons p c ih =>
+    have hs : setField (p :: c) d v = (if p.1 == d then (d, v) else p) :: setField c d v := by
+      simp [setField]
+    rw [hs, alookup_cons, alookup_cons, ih]
+    by_cases hpd : p.1 = d
+    · by_cases hfd : f = d
+      · subst hfd; subst hpd; simp [alookup_cons]
+      · have : ¬ (d = f) := fun e => hfd e.symm
+        have h2 : ¬ (p.1 = f) := by rw [hpd]; exact this
+        simp [hpd, hfd, this, h2, alookup_cons]
+    · by_cases hfd : f = d
+      · subst hfd
+        have : ¬ (p.1 = f) := hpd
+        simp [hpd, alookup_cons]
+      · simp [hpd, hfd, alookup_cons]
+
+theorem get_setField_ne (c : Config) (d : String) (v : FieldVal) (f : String) (h : f ≠ d) :
+    get (setField c d v) f = get c f := by
+  show (alookup (setField c d v) f).getD _ = (alookup c f).getD _
+  rw [alookup_setField]; simp [h]
+
+theorem get_setField_self (c : Config) (d : String) (v : FieldVal) (h : (alookup c d).isSome = true) :
+    get (setField c d v) d = v := by
+  show (alookup (setField c d v) d).getD _ = v
+  rw [alookup_setField]
+  cases hh : alookup c d with
+  | none => simp [hh] at h
+  | some x => simp
+
+theorem isSome_alookup_setField (c : Config) (d : String) (v : FieldVal) (f : String) :
+    (alookup (setField c d v) f).isSome = (alookup c f).isSome := by
+  rw [alookup_setField]
+  by_cases h : f = d
+  · subst h; cases alookup c f <;> simp
+  · simp [h]
+
+/-- What `decodePost` does, for every configuration whose raw fields are strings and whose
+duration fields exist: it fails exactly when some non-empty raw string does not parse; otherwise
+every duration whose raw string is non-empty becomes the parsed value, every other field —
+including the durations whose raw string is empty — is unchanged. -/
+theorem decodePost_spec (parseDur : String → Option Int) (pairs : List (String × String)) : ∀ (c : Config),
+    (∀ pr ∈ pairs, ∀ pr' ∈ pairs, pr.1 ≠ pr'.2) → (pairs.map (·.2)).Nodup →
+    (∀ pr ∈ pairs, (alookup c pr.2).isSome = true) → (∀ pr ∈ pairs, ∃ s, get c pr.1 = .str s) →
+    match decodePost parseDur pairs c with
+    | none => ∃ pr ∈ pairs, ∃ s, get c pr.1 = .str s ∧ s ≠ "" ∧ parseDur s = none
+    | some c' => (∀ f, f ∉ pairs.map (·.2) → get c' f = get c f) ∧
+        ∀ pr ∈ pairs, ∃ s, get c pr.1 = .str s ∧
+          (s = "" → get c' pr.2 = get c pr.2) ∧ (s ≠ "" → ∃ n, parseDur s = some n ∧ get c' pr.2 = .int n) := by
+  induction pairs with
+  | nil => intro c _ _ _ _; simp [decodePost]
+  | cons pr rest ih =>
+    intro c hdisj hnd hpres hraw
+    obtain ⟨s, hs⟩ := hraw pr (by simp)
+    simp only [List.map_cons, List.nodup_cons] at hnd
+    have hdisj' : ∀ p ∈ rest, ∀ p' ∈ rest, p.1 ≠ p'.2 := fun p hp p' hp' => hdisj p (by simp [hp]) p' (by simp [hp'])
+    simp only [decodePost, decodeStep, hs]
+    by_cases hse : s = ""
+    · -- nothing to do for this pair
+      simp only [hse, ne_eq, not_true_eq_false, if_false]
+      have := ih c hdisj' hnd.2 (fun p hp => hpres p (by simp [hp])) (fun p hp => hraw p (by simp [hp]))
+      cases hd : decodePost parseDur rest c with
+      | none =>
+        rw [hd] at this
+        obtain ⟨p, hp, x⟩ := this
+        exact ⟨p, by simp [hp], x⟩
+      | some c' =>
+        rw [hd] at this
+        obtain ⟨h1, h2⟩ := this
+        refine ⟨fun f hf => h1 f (fun hm => hf (by simp [hm])), ?_⟩
+        intro p hp
+        rcases List.mem_cons.mp hp with rfl | hp
+        · exact ⟨s, hs, fun _ => h1 _ hnd.1, fun hne => absurd hse hne⟩
+        · exact h2 p hp
+    · simp only [ne_eq, hse, not_false_eq_true, if_true]
+      cases hp : parseDur s with
+      | none => exact ⟨pr, by simp, s, hs, hse, hp⟩
+      | some n =>
+        simp only [Option.map_some]
+        have hraw1 : ∀ p ∈ rest, get (setField c pr.2 (.int n)) p.1 = get c p.1 := fun p hp' =>
+          get_setField_ne c pr.2 _ p.1 (hdisj p (by simp [hp']) pr (by simp))
+        have := ih (setField c pr.2 (.int n)) hdisj' hnd.2
+          (fun p hp' => by rw [isSome_alookup_setField]; exact hpres p (by simp [hp']))
+          (fun p hp' => by rw [hraw1 p hp']; exact hraw p (by simp [hp']))
+        cases hd : decodePost parseDur rest (setField c pr.2 (.int n)) with
+        | none =>
+          rw [hd] at this
+          obtain ⟨p, hp', s', h1, h2, h3⟩ := this
+          exact ⟨p, by simp [hp'], s', by rw [← hraw1 p hp']; exact h1, h2, h3⟩
+        | some c' =>
+          rw [hd] at this
+          obtain ⟨h1, h2⟩ := this
+          refine ⟨?_, ?_⟩
+          · intro f hf
+            have hf1 : f ≠ pr.2 := fun e => hf (by simp [e])
+            rw [h1 f (fun hm => hf (by simp [hm])), get_setField_ne c pr.2 _ f hf1]
+          · intro p hp'
+            rcases List.mem_cons.mp hp' with rfl | hp'
+            · refine ⟨s, hs, fun e => absurd e hse, fun _ => ⟨n, hp, ?_⟩⟩
+              rw [h1 _ hnd.1, get_setField_self c _ _ (hpres _ (by simp))]
+            · obtain ⟨s', hs', ha, hb⟩ := h2 p hp'
+              have hne : p.2 ≠ pr.2 := fun e => hnd.1 (e ▸ List.mem_map_of_mem (f := (·.2)) hp')
+              refine ⟨s', by rw [← hraw1 p hp']; exact hs', fun e => ?_, hb⟩
+              rw [ha e, get_setField_ne c pr.2 _ p.2 hne]
+
+
 end SerfProofs.Config
